@@ -322,3 +322,16 @@ CHECKS["C02"]["text"] += (" Inline constraint names (CONSTRAINT n before UNIQUE 
     "reference is kept in the configuration identity, so what the table-level fold does with such a column and with the columns after it is explored.")
 CHECKS["C01"]["text"] += " Parenthesised defaults (DEFAULT (NULL), DEFAULT (0)) belong to the option alphabet."
 CHECKS["C06"]["text"] += " kwnames also puts every keyword in the referenced-column position of an inline REFERENCES."
+
+# ---- session 4
+CHECKS["C04"]["text"] += (" Session 4: nineteen ALTER sequences (evaluated in a fork pool): a column added and dropped again stays dropped whatever ALTER "
+                          "follows (found and repaired: 7d73cb7), and a column-level effect - unique flag, default - reaches the column as it is after an "
+                          "earlier MODIFY / RENAME / ADD.")
+for _k in ("C14", "C15"):
+    CHECKS[_k]["technique"] += "; alias rule: no module-level container of mutable objects flows into a parse result (T-ALIAS over everything run() reaches)"
+    CHECKS[_k]["text"] += (" T-ALIAS: a module-level dict / list literal holding mutable objects may be consulted (membership, get, index, iteration) "
+                           "but not copied / unpacked into a result anywhere run() reaches - the inner objects would be shared by every run and every parser object.")
+CHECKS["C16"]["text"] += " The unknown-mode evaluation is repeated on scripts that yield nothing, only non-table entities, and a table."
+CHECKS["C09"]["text"] += " The type alphabet includes a suffix after the size: numeric(10,2)[], decimal(10,2) unsigned (type = base + suffix, size kept)."
+CHECKS["C18"]["text"] += " A tablespace may be CALLED like one of the optional words (temporary, bigfile): the flags come from the words before TABLESPACE only."
+CHECKS["C07"]["text"] += " Literal classes include `; + statement word`; the structural T-NUMERIC anchor is optional (the values are decided by the fixed point)."
